@@ -26,7 +26,7 @@ func TestMain(m *testing.M) {
 	for _, k := range []string{"bitflip", "truncate", "extend", "hdr_type", "hdr_version", "hdr_len", "drop", "duplicate", "swap", "replay_other_dir", "replay_preccs", "replay_other_conn", "cut", "pad_valid", "pad_corrupt"} {
 		R.Require("fault:" + k)
 	}
-	R.Require("suite:e013", "suite:e053", "dir:c2s", "dir:s2c", "control_tls12", "padlen_all_16", "bitflip_exhaustive_done")
+	R.Require("padmax:255", "padmax:240", "suite:e013", "suite:e053", "dir:c2s", "dir:s2c", "control_tls12", "padlen_all_16", "bitflip_exhaustive_done")
 	hx.Main(m, R)
 }
 
@@ -573,5 +573,24 @@ func TestC07_PaddingLengths(t *testing.T) {
 		runFault(t, sess{Suite: tlsx.GMECCSM4CBCSM3, C2S: pad%2 == 0, Writes: w}, fault{Kind: "pad_valid", Index: 2, Pad: pad}, fmt.Sprintf("pv%d", pad))
 		runFault(t, sess{Suite: tlsx.GMECCSM4CBCSM3, C2S: pad%2 == 1, Writes: w}, fault{Kind: "pad_corrupt", Index: 2, Pad: pad, K: pad * 7}, fmt.Sprintf("pc%d", pad))
 		R.Case(true, hx.HashKey("padcraft", pad), "fault:pad_valid", "fault:pad_corrupt")
+	}
+	// the longest padding each plaintext length admits (240..255), corrupted at its first, second, last-but-one and
+	// last byte (thorough: at every byte): a padding check that stops short of byte 256 from the end is visible only here
+	for plen := 16; plen < 32; plen++ {
+		maxPad := 255 - (plen+32+1+255)%16
+		// records of the direction: 0 Finished, 1+2 "first" (1/n-1 split), 3 one byte, 4 the remaining plen bytes
+		w := [][]byte{[]byte("first"), bytes.Repeat([]byte("y"), plen+1), []byte("last")}
+		runFault(t, sess{Suite: tlsx.GMECCSM4CBCSM3, C2S: plen%2 == 0, Writes: w}, fault{Kind: "pad_valid", Index: 4, Pad: maxPad}, fmt.Sprintf("pvm%d", plen))
+		positions := []int{0, 1, maxPad - 1, maxPad}
+		if hx.Thorough() {
+			positions = nil
+			for i := 0; i <= maxPad; i++ {
+				positions = append(positions, i)
+			}
+		}
+		for _, pos := range positions {
+			runFault(t, sess{Suite: tlsx.GMECCSM4CBCSM3, C2S: plen%2 == 1, Writes: w}, fault{Kind: "pad_corrupt", Index: 4, Pad: maxPad, K: pos}, fmt.Sprintf("pcm%d_%d", plen, pos))
+		}
+		R.Case(true, hx.HashKey("padmax", plen), "fault:pad_corrupt", fmt.Sprintf("padmax:%d", maxPad))
 	}
 }
